@@ -1,5 +1,6 @@
 """C14 - activation equals the solution of the documented capture/decay chains."""
 from contracts import activation as A
+from contracts import core as K
 
 ID = "C14"
 LEVEL = "other"
@@ -9,13 +10,16 @@ EXPLANATION = "see DESIGN.md C14"
 
 
 def units(tier):
-    return A.U_ACTIVITY + [A.U_EPITHERMAL, A.U_ACCUMULATE, A.U_CALC_ACTIVATION]
+    return A.U_ACTIVITY + [A.U_EPITHERMAL, A.U_ACCUMULATE, A.U_CALC_ACTIVATION, K.L_REGISTRATION]
 
 
 def runner_tasks(tier):
     return [{"module": "c14", "task": "table_columns", "kind": "eval", "clause": "activation.dat columns, both tables"},
             {"module": "c14", "task": "grid", "kind": "bounded", "clause": "all 513 rows x parameter grid vs exact chain solutions"},
-            {"module": "c14", "task": "element_sum", "kind": "bounded", "clause": "natural element = abundance-weighted isotope sum"}]
+            {"module": "c14", "task": "element_sum", "kind": "bounded", "clause": "natural element = abundance-weighted isotope sum"},
+            {"module": "stateful", "task": "C14", "name": "stateful", "kind": "bounded", "clause": "re-used environment / sample gives what a fresh one gives"},
+            {"module": "c09", "task": "steps", "name": "first-touch steps", "kind": "eval", "arg": {"groups": ["neutron_activation"]}, "clause": "every first touch of the activation data (incl. explicit init first) serves the canonical rows", "timeout": 1500},
+            {"module": "c10", "task": "steps", "name": "private-table steps", "kind": "eval", "arg": {"modules": ["activation"]}, "clause": "activation.init on a private table: same rows, public untouched", "timeout": 1500}]
 
 
 REPLAY = {"module": "c14", "task": "replay"}
